@@ -31,6 +31,8 @@ class PathInfo:
     @classmethod
     def make_from_integer(cls, integer: int) -> 'PathInfo':
         """Create PathInfo from integer value."""
+        if not 0 <= integer <= 0xFFFFFFFF:
+            raise ValueError(f'path-information {integer} out of range\n  Must be 0 to 4294967295 (32-bit)')
         packed = b''.join(bytes([(integer >> offset) & 0xFF]) for offset in [24, 16, 8, 0])
         return cls(packed)
 
